@@ -20,6 +20,33 @@ partial def jSExpr (j : Json) : Except String BExpr := do
   | [.str "pow", a, n] => pure (.pow (← jSExpr a) (← jNat n))
   | _ => .error s!"bad sexpr {j.compress}"
 
+/-- model expressions over symbols: `["s", name]` next to the constructors of `jSExpr` -/
+partial def jSymExpr (j : Json) : Except String SExpr := do
+  match ← jArr j with
+  | [.str "s", n] => pure (.sym (← jStr n))
+  | [.str "c", q] => pure (.const (← jRat q))
+  | [.str "+", a, b] => pure (.add (← jSymExpr a) (← jSymExpr b))
+  | [.str "-", a, b] => pure (.sub (← jSymExpr a) (← jSymExpr b))
+  | [.str "*", a, b] => pure (.mul (← jSymExpr a) (← jSymExpr b))
+  | [.str "/", a, b] => pure (.div (← jSymExpr a) (← jSymExpr b))
+  | [.str "neg", a] => pure (.neg (← jSymExpr a))
+  | [.str "pow", a, n] => pure (.pow (← jSymExpr a) (← jNat n))
+  | _ => .error s!"bad symbolic expr {j.compress}"
+
+/-- op "c12" with a `subst` field: `substSym σ e` (symbols outside `σ` stay) evaluated at the given environments;
+    `null` where a denominator of the substituted expression vanishes -/
+def handleSubst (j : Json) : Except String Json := do
+  let e ← jSymExpr (← field j "e")
+  let σl ← jAssoc jSymExpr (← field j "sigma")
+  let σ : String → SExpr := fun n => (σl.lookup n).getD (.sym n)
+  let r := substSym σ e
+  let envs ← jArr (← field j "envs")
+  let vals ← envs.mapM fun ej => do
+    let el ← jAssoc jRat ej
+    let ρ : String → Rat := fun n => (el.lookup n).getD 0
+    pure (if denOKb ρ r then ratJ (evalS ρ r) else Json.null)
+  pure (Json.mkObj [("vals", .arr vals.toArray), ("free", strsJ (freeSyms r))])
+
 def jSFn (j : Json) : Except String SFn := do
   pure { args := ← jList jStr (← field j "args"), body := ← jSExpr (← field j "e") }
 
@@ -111,6 +138,7 @@ def runHist (c : SContent) (ops : List SimOp) : Json :=
                 ("after", .bool (contentAfter c ops).wf)]
 
 def handle (j : Json) : Except String Json := do
+  if (j.getObjVal? "subst").isOk then return (← handleSubst (← field j "subst"))
   let c ← jSContent (← field j "content")
   let pts ← jArr (← field j "points")
   let upd : Option SContent ← match j.getObjVal? "upd" with
